@@ -527,6 +527,22 @@ func (w *World) callWrites(c *ssa.CallCommon, ws *WriteSet, g *Gen, encl *ssa.Fu
 		if fn != nil && len(fn.Blocks) > 0 && w.isRepoFunc(fn) && w.writeSet(fn, nil).Recvs {
 			ws.Recvs = true
 		}
+		if pn := ct.Flags["frame_of_param"]; pn != "" && fn != nil {
+			found := false
+			for i, prm := range fn.Params {
+				if prm.Name() == pn && i < len(c.Args) {
+					if mc, ok := unwrapClosure(c.Args[i]); ok {
+						if cf, ok := mc.Fn.(*ssa.Function); ok {
+							ws.merge(w.writeSet(cf, nil))
+							found = true
+						}
+					}
+				}
+			}
+			if !found {
+				ws.All, ws.Why = true, "function value passed to "+key+" is not a closure literal"
+			}
+		}
 		if ct.HasAssigns {
 			for _, d := range ct.allAssigns() {
 				names, all := w.designatorVars(d, fn, ct)
@@ -647,6 +663,26 @@ func (w *World) designatorVars(d string, fn *ssa.Function, ct *Contract) (map[st
 
 // heapVarSortByName derives the sort of an Elem./Cell. heap variable from its name.
 func heapVarSortByName(n string) Sort {
+	tagSort := func(t string) Sort {
+		switch t {
+		case "Str":
+			return SStr
+		case "Bool":
+			return SBool
+		}
+		return SInt
+	}
+	if strings.HasPrefix(n, "MapDom.") {
+		return ArrSort(SInt, ArrSort(tagSort(n[len("MapDom."):]), SBool))
+	}
+	if strings.HasPrefix(n, "MapVal.") {
+		rest := n[len("MapVal."):]
+		k, v := rest, ""
+		if i := strings.Index(rest, "."); i >= 0 {
+			k, v = rest[:i], rest[i+1:]
+		}
+		return ArrSort(SInt, ArrSort(tagSort(k), tagSort(v)))
+	}
 	val := SInt
 	switch {
 	case strings.HasSuffix(n, ".Str") || strings.HasSuffix(n, ".string"):
